@@ -967,7 +967,17 @@ struct Lower {
     if (auto* X = dyn_cast<CXXForRangeStmt>(S)) {
       const Expr* R = X->getRangeInit()->IgnoreParenImpCasts();
       auto* AT = C.getAsConstantArrayType(R->getType());
-      if (!AT) throw Unsupported{"range-for over non-array"};
+      if (!AT) {
+        // range-for over a container: clang's own desugaring (range, begin, end declarations; condition; increment; loop variable)
+        if (!X->getRangeStmt() || !X->getBeginStmt() || !X->getEndStmt() || !X->getCond() || !X->getInc() || !X->getLoopVarStmt()) throw Unsupported{"range-for without desugared pieces"};
+        std::string a = loopAnn(ind);
+        std::string r = I + "{\n" + st(X->getRangeStmt(), ind + 1) + st(X->getBeginStmt(), ind + 1) + st(X->getEndStmt(), ind + 1);
+        if (inStep) ++stepNest;
+        std::string bd = st(X->getLoopVarStmt(), ind + 2) + st(X->getBody(), ind + 2);
+        if (inStep) --stepNest;
+        r += I + "  for (; " + ex(X->getCond()) + "; " + exDiscard(X->getInc()) + ")\n" + a + I + "  {\n" + bd + I + "  }\n" + I + "}\n";
+        return r;
+      }
       std::string idx = "__i" + std::to_string(tmpId++);
       auto* LV = X->getLoopVariable();
       std::string elem = "(" + ex(R) + ")[" + idx + "]";
